@@ -32,6 +32,15 @@ def run(ctx):
         "values in history drivers carry their id (bytes 0..255 incl. NUL); the empty value and values up to 64 KiB are covered by the wire driver",
         "TLC explores Net.tla for <= 3 clients, <= 2 servers, <= 2 keys, 1 trigger; larger alphabets only through validated traces",
     ]
+    if ctx.replay:      # vcheck C10 --replay <file>: judge one recorded trace again
+        import shutil
+        t = os.path.join(ctx.work, "replay.ndjson")
+        shutil.copy(ctx.replay, t)
+        kind = "thr" if '"e":"Srv"' in open(t).read() else "seq"
+        state = {"dev": {}, "rej": {}, "lock": threading.Lock()}
+        judge(ctx, netcache, "replay", t, kind, state)
+        report(ctx, state)
+        return
     # Leg D (TLC, many workers) runs beside Leg B (harness + one single-worker JVM per trace)
     td = threading.Thread(target=legD, args=(ctx, q))
     td.start()
@@ -73,8 +82,9 @@ def legB(ctx, q, netcache):
     def seq(tag, *args, shard=None):
         jobs.append((tag, [str(a) for a in args], {"VERIF_SHARD": shard} if shard else {}, "seq"))
     if q:
-        seq("exh-l1l1", "exh", 1, 2, 3, 1, 1, 4, 0)
-        seq("exh-l1none", "exh", 1, 2, 1, 1, 1, 4, 0)
+        for sh in range(2):
+            seq("exh-l1l1-%d" % sh, "exh", 1, 2, 3, 1, 1, 4, 0, shard="%d/2" % sh)
+            seq("exh-l1none-%d" % sh, "exh", 1, 2, 1, 1, 1, 4, 0, shard="%d/2" % sh)
         seq("exh-3c2s", "exh", 2, 3, 3, 2, 1, 3, 2)
         seq("exh-clock", "exh", 1, 2, 3, 1, 1, 3, 1)
         for i, (ns, nc, mask, lim) in enumerate([(1, 2, 3, 0), (1, 2, 1, 0), (2, 3, 7, 0), (2, 3, 5, 2), (1, 3, 3, 1), (3, 3, 6, 0)]):
@@ -146,9 +156,22 @@ def legB(ctx, q, netcache):
             state["nseq"] += sum(1 for x in lines if '"e":"Reset"' in x)
         futs.append(pool.submit(judge, ctx, netcache, tag, t, kind, state))
     for f in futs:
-        f.result()
+        try:
+            f.result()
+        except Exception:
+            import traceback
+            ctx.undecided.append("validation job crashed:\n" + traceback.format_exc())
     pool.shutdown()
-    # named deviations -> violations (one per signature, with the first failing history as replay)
+    report(ctx, state)
+    ctx.extra["sequential_executions"] = state["nseq"]
+    ctx.extra["wire_cases"] = state["wire_cases"]
+    ctx.extra["threaded_executions"] = state["nthr"]
+    ctx.extra["hook_events_in_threaded_leg"] = state["hook_events"]
+    ctx.extra.setdefault("threaded_leg", "run: Lin/Lock hooks of cache_storage.cpp present")
+
+
+def report(ctx, state):
+    # named deviations -> violations (one per signature, with the shortest failing history as replay)
     for sig, d in sorted(state["dev"].items()):
         ctx.violation(sig, "%s (%d occurrences in this run); first: %s" % (DEV_TEXT.get(sig, sig), d["n"], d["hist"]), d["path"])
     for sig, d in sorted(state["rej"].items()):
@@ -156,11 +179,6 @@ def legB(ctx, q, netcache):
         ctx.violation(sig, "not a behaviour of Net (%d rejected executions with this signature); shortest: event %d of: %s   (event %s)" % (
             d["n"], d["len"], h, d["event"]), d["path"])
     ctx.extra["deviations"] = {s: d["n"] for s, d in state["dev"].items()}
-    ctx.extra["sequential_executions"] = state["nseq"]
-    ctx.extra["wire_cases"] = state["wire_cases"]
-    ctx.extra["threaded_executions"] = state["nthr"]
-    ctx.extra["hook_events_in_threaded_leg"] = state["hook_events"]
-    ctx.extra.setdefault("threaded_leg", "run: Lin/Lock hooks of cache_storage.cpp present")
 
 
 DEV_TEXT = {
@@ -199,7 +217,7 @@ def judge(ctx, netcache, tag, t, kind, state):
         with state["lock"]:
             for x in rejP:
                 bad.add(x["line"] - x["offset_in_exec"])
-                sig = "%s:%s" % ("optrace" if kind == "seq" else "steptrace", devlines.get(x["line"]) or netcache.classify(x))
+                sig = "%s:%s" % ("optrace" if kind == "seq" else "steptrace", devlines.get(x["line"]) or netcache.classify(x, kind != "seq"))
                 d = state["rej"].setdefault(sig, {"n": 0, "len": 1 << 30})
                 d["n"] += 1
                 if x["offset_in_exec"] < d["len"]:
@@ -225,7 +243,11 @@ def selftest(ctx, netcache, exe):
         return
     lines = open(t).read().splitlines()
     # (a) corrupt one field: the value id returned by the first fetch
-    e = json.loads(lines[2]); e["rv"] = e["rv"] + 1
+    e = json.loads(lines[2])
+    if len(lines) != 8 or "rv" not in e or '"hit":false' not in lines[6]:
+        ctx.extra["binding_selftest"] = "skipped: the script execution itself deviates (reported by the main legs)"
+        return
+    e["rv"] = e["rv"] + 1
     a = lines[:2] + [json.dumps(e, separators=(",", ":"))] + lines[3:]
     # (b) drop one event: the rise (the following fetch then misses without a cause)
     b = lines[:5] + lines[6:]
